@@ -33,6 +33,11 @@ def run(ctx, replay=None):
     pcfgs.append(dict(tag="persist-2ph", phases=[ph, p2], D=1e-16, calls=[(20.0, 0.02), (20.0, 0.02)], iter="euler", cap=400))
     pcfgs.append(dict(tag="persist-fixedgrid", phases=[ph], D=1e-16, pbm=(1e-10, 1e-9, 60, 30, 90, False), calls=[(30.0, 0.02)], iter="euler", cap=400))
     pcfgs.append(dict(tag="persist-remeshed", phases=[ph], D=1e-15, pbm=(1e-10, 1e-9, 24, 12, 36, True), calls=[(100.0, 0.01)], iter="euler", cap=600))
+    # non-spherical precipitates: constant aspect ratio, size-dependent aspect ratio, aspect ratio of every size class from the strain energy
+    pcfgs.append(dict(tag="persist-plate-ar3", phases=[dict(ph, shape=("plate", 3.0))], D=1e-16, calls=[(20.0, 0.02)], iter="euler", cap=400))
+    pcfgs.append(dict(tag="persist-needle-ar-function", phases=[dict(ph, shape=("needle", ("linear", 1.5, 0.8)))], D=1e-16, calls=[(20.0, 0.02)], iter="rk4", cap=400))
+    pcfgs.append(dict(tag="persist-plate-ar-from-strain-energy", phases=[dict(ph, strainAR=("plate", (6.67e-3, 6.67e-3, 2.86e-2), 57.1e9, 0.33))], D=1e-16,
+                      pbm=(1e-10, 2e-9, 40, 30, 60, True), calls=[(20.0, 0.02)], iter="euler", cap=400))
     with cf.ProcessPoolExecutor(max_workers=len(pcfgs)) as ex:
         pres = list(ex.map(_pp, pcfgs))
     labels = [c["tag"] for c in pcfgs]
